@@ -20,6 +20,8 @@ type lruScenario struct {
 	Capacity int     `json:"capacity"` // <1 exercises the documented default
 	Keys     int     `json:"keys"`
 	Ops      []lruOp `json:"ops"`
+	// concurrent mode (engine B): one operation list per client goroutine
+	Conc [][]lruConcOp `json:"conc,omitempty"`
 }
 
 // lruModel: most-recently-used first.
@@ -77,6 +79,10 @@ const lruDefaultCapacity = 1 << 30
 func genLRU(seed uint64, tier string) any {
 	r := kit.NewRng(seed)
 	sc := &lruScenario{}
+	if r.Chance(1, 16) {
+		genLRUConc(r, sc)
+		return sc
+	}
 	switch r.Intn(10) {
 	case 0:
 		sc.Capacity = -r.Intn(2) // 0 or -1 … default capacity
@@ -102,6 +108,9 @@ func keyName(k int) string { return fmt.Sprintf("key-%d", k) }
 
 func execLRU(t *testing.T, scAny any, keepLog bool) *Outcome {
 	sc := scAny.(*lruScenario)
+	if len(sc.Conc) > 0 {
+		return execLRUConc(t, sc)
+	}
 	o := &Outcome{Counters: map[string]int{}}
 	h := kit.NewHash64()
 	capacity := sc.Capacity
@@ -222,6 +231,9 @@ func execLRU(t *testing.T, scAny any, keepLog bool) *Outcome {
 func shrinkLRU(scAny any) []any {
 	sc := scAny.(*lruScenario)
 	var out []any
+	if len(sc.Conc) > 0 {
+		return nil
+	}
 	for i := len(sc.Ops) - 1; i >= 0; i-- {
 		c := *sc
 		c.Ops = dropIndex(sc.Ops, i)
@@ -250,7 +262,8 @@ func init() {
 		Real:        []string{"tls.NewLRUClientSessionCache", "lruSessionCache.Put", "lruSessionCache.Get"},
 		Stub:        []string{"ClientSessionState values are empty structs identified by pointer"},
 		Assume:      []string{"Get counts as a use for recency (LRU)", "the undocumented default capacity exceeds 6 keys"},
-		FaultKinds:  []string{"probe.putnil_absent", "probe.putnil_absent_full", "probe.putnil_present", "probe.evictions"},
+		FaultKinds: []string{"probe.putnil_absent", "probe.putnil_absent_full", "probe.putnil_present", "probe.evictions",
+			"probe.conc_histories", "probe.conc_operations", "probe.linearizable_histories", "probe.linearizability_inconclusive", "probe.race_reports"},
 		NotInjected: "no transport, clock or storage is involved in this property; the fault dimension is what callers may legally pass (nil values, absent keys, capacity < 1)",
 		Gen:         genLRU, New: func() any { return &lruScenario{} }, Exec: execLRU, Shrink: shrinkLRU,
 		QuickRuns: 40000, ThoroughRuns: 4000000,
